@@ -1,6 +1,6 @@
 (** The laws the binary code paths rely on, proved for the concrete carrier [xval], and the
     resulting refinement theorems for add / mul / maximum / sub on tensors. *)
-From Coq Require Import List Arith Lia PeanoNat Bool PArith QArith Qcanon.
+From Coq Require Import List Arith Lia PeanoNat Bool PArith QArith Qcanon Lqa.
 Import ListNotations.
 Require Import Fggs.Model.Axis Fggs.Model.XVal Fggs.Model.PTensor Fggs.Model.PTensorCheck.
 Require Import Fggs.Proofs.PTensor_sem Fggs.Proofs.PTensor_dense Fggs.Proofs.PTensor_unary Fggs.Proofs.PTensor_binary.
@@ -42,6 +42,50 @@ Proof. unfold xsub. apply xadd_comm. Qed.
 Lemma xsub_0_l b : xsub (XF 0) b = xneg b.
 Proof. unfold xsub. apply xadd_0_l. Qed.
 
+(** division: [x / 1 = x] and [(1 / b) * a = a / b] (what the third code path of [div] computes),
+    including the special values *)
+Lemma xdiv_1_r a : xdiv a (XF 1) = a.
+Proof.
+  destruct a as [p| | |]; try reflexivity. simpl. f_equal. field. discriminate.
+Qed.
+
+Lemma this_inv' (a : Qc) : (this (/ a) == / this a)%Q.
+Proof. unfold Qcinv, Q2Qc; cbn [this]; apply Qred_correct. Qed.
+
+Lemma qsign_inv (q : Qc) : q <> 0%Qc -> qsign (1 / q) = qsign q.
+Proof.
+  intros Hq. unfold qsign, Qccompare.
+  assert (E : (this (1 / q) == / this q)%Q).
+  { unfold Qcdiv. rewrite Qcmult_1_l. apply this_inv'. }
+  assert (Hq' : ~ (this q == 0)%Q).
+  { intros H. apply Hq. apply Qc_is_canon. exact H. }
+  change (this 0%Qc) with 0%Q.
+  destruct (Qcompare (this q) 0) eqn:C.
+  - apply Qeq_alt in C. contradiction.
+  - apply Qlt_alt in C. apply (proj1 (Qlt_alt _ _)). rewrite E.
+    assert (0 < / (- this q))%Q by (apply Qinv_lt_0_compat; lra).
+    assert (/ (- this q) == - / this q)%Q by (field; exact Hq').
+    set (a := (/ this q)%Q) in *. set (b := (/ (- this q))%Q) in *. lra.
+  - apply Qgt_alt in C. apply (proj1 (Qgt_alt _ _)). rewrite E. apply Qinv_lt_0_compat. exact C.
+Qed.
+
+Lemma xdiv_recip a b : xmul (xdiv (XF 1) b) a = xdiv a b.
+Proof.
+  destruct b as [q| | |].
+  - simpl. destruct (Qc_eq_bool q 0) eqn:Eq.
+    + apply Qc_eq_bool_correct in Eq. subst q. destruct a; reflexivity.
+    + assert (Hq : q <> 0%Qc) by (intros ->; discriminate).
+      destruct a as [p| | |]; simpl; try reflexivity.
+      * rewrite Eq. f_equal. field. exact Hq.
+      * rewrite (qsign_inv q Hq). destruct (qsign q) eqn:S; try reflexivity.
+        exfalso. apply Hq. unfold qsign in S. apply Qceq_alt in S. exact S.
+      * rewrite (qsign_inv q Hq). destruct (qsign q) eqn:S; try reflexivity.
+        exfalso. apply Hq. unfold qsign in S. apply Qceq_alt in S. exact S.
+  - destruct a as [p| | |]; simpl; try reflexivity. f_equal. ring.
+  - destruct a as [p| | |]; simpl; try reflexivity. f_equal. ring.
+  - destruct a; reflexivity.
+Qed.
+
 Definition xeqb' (a b : xval) : bool := xeqb a b.
 
 Section Instances.
@@ -71,13 +115,21 @@ Proof.
   intros H. eapply (commutative_refines xval xeqb' xmul (XF 1)); eauto using xeqb_sound, xmul_1_r, xmul_comm.
 Qed.
 
-(** maximum: the default is Python's [max], which equals torch's maximum unless the second default is NaN *)
-Theorem maximum_refines : xisnan (default u) = false ->
-  pt_commutative xval xeqb' xmax XNInf (py_max (default t) (default u)) next t u = Ok (r, next') ->
+(** maximum: the default is torch.maximum of the defaults (fd2047f), for every pair of defaults *)
+Theorem maximum_refines :
+  pt_commutative xval xeqb' xmax XNInf (xmax (default t) (default u)) next t u = Ok (r, next') ->
   denote xval r idx = xmax (denote xval t idx) (denote xval u idx).
 Proof.
-  intros Hn H. eapply (commutative_refines xval xeqb' xmax XNInf); eauto using xeqb_sound, xmax_ninf_r, xmax_comm.
-  apply py_max_xmax. exact Hn.
+  intros H. eapply (commutative_refines xval xeqb' xmax XNInf); eauto using xeqb_sound, xmax_ninf_r, xmax_comm.
+Qed.
+
+(** div: the default is computed with torch (fc474fc), for every divisor default (0 included) *)
+Theorem div_refines :
+  pt_sub_like xval xeqb' xdiv (fun b => xdiv (XF 1) b) xmul (XF 1) (xdiv (default t) (default u)) next t u = Ok (r, next') ->
+  denote xval r idx = xdiv (denote xval t idx) (denote xval u idx).
+Proof.
+  intros H. eapply (sub_like_refines xval xeqb' xdiv (fun b => xdiv (XF 1) b) xmul (XF 1));
+    eauto using xeqb_sound, xdiv_1_r, xdiv_recip.
 Qed.
 
 (** sub *)
